@@ -552,7 +552,9 @@ def rule_socket_address(ck):
 
 
 def run(ck):
-    from ..x_valuewalk import guard_obligations
+    from ..x_valuewalk import guard_obligations, plain_assignments
+
+    ck.repo = plain_assignments(ck.repo, ["tornado/httpserver.py", "tornado/netutil.py"])
 
     guard_obligations(ck, ['_apply_xheaders', '_unapply_xheaders', '_cleanup', '_parse_body', '_find_groups'])
     ck.rule("C32.ip-validated", "_apply_xheaders stores into self.remote_ip only the local that netutil.is_valid_ip accepted (true branch dominates, no rebinding since)")
